@@ -10,7 +10,7 @@ SPEC = dict(
         dict(name='step', harness='h.cpp', tus=TUS, models=MODELS, shadow_task=True,
              instances=[
                  I('start', 'start', 1 | 16, 'arbitrary INV pre-state'),
-             ] + [I('features_tls%d_ssl%d_s%d' % (t, l, k), 'features', l | 16 | t << 5 | k << 7, 'arbitrary INV pre-state; arbitrary features') for t in (0, 1, 2) for l in (0, 1) for k in (0, 1, 2)
+             ] + [I('features_tls%d_ssl%d_s%d' % (t, l, k), 'features', l | 16 | t << 5 | k << 7, 'arbitrary INV pre-state; arbitrary features') for t in (0, 1, 2) for l in (0, 1) for k in (0, 1, 2)] + [I('features_tls%d_sslx_s%d' % (t, k), 'features', 512 | 16 | t << 5 | k << 7, '') for t in (1,) for k in (2,)
              ]),
     ],
     bounds=[],
